@@ -162,7 +162,7 @@ def run(R, tier):
         consts = LX.byte_constants(u, [b] + pure) | {ord(c) for c in ",+-.:!@\"'"}
         classes = LX.byte_classes(consts)
         _inhc = D.inline_inherent(("scpi::parser::expression::channel_list::",), exclude=tuple(CL + "ChannelList::" + m for m in ("read_channel_range", "read_channel_path", "read_channel_spec")))
-        engc = fdai.Engine(P, u, inline=lambda n, r: r.endswith(("error::Error::new", "error::Error::extended")) or r in pure_names or (not r.endswith(("::read_channel_range", "::read_channel_path", "::read_channel_spec")) and _inhc(n, r)), models=dict(M.BYTE_MODELS))
+        engc = fdai.Engine(P, u, inline=lambda n, r: r.endswith(("error::Error::new", "error::Error::extended")) or r in pure_names or (not r.endswith(("::read_channel_range", "::read_channel_path", "::read_channel_spec")) and _inhc(n, r)), models=dict(M.FOLD_MODELS))
         bad = []
         n_rows = 0
 
